@@ -44,6 +44,7 @@ import M4riProofs.GenTieClose2
 import M4riProofs.GenTieClose4
 import M4riProofs.GenTieTop
 import M4riProofs.GenTieTriFinal
+import M4riProofs.GenTieTop2Final
 namespace M4ri.Props.C03
 open M4ri M4ri.BMat
 
@@ -209,3 +210,13 @@ end M4ri.Props.C03
     generated function (over the generated `mzd_col_swap_in_rows`) computes on a whole well-formed matrix -/
 #check @M4ri.GenTieTriFinal.mzdApplyPRightTransTri_eq
 #check @M4ri.GenTieTriFinal.mzdApplyPRightTransTri_liftTri
+
+/-! ### `_mzd_pluq` WITH `mzd_apply_p_right_trans_tri` ON THE C TEXT TOO (GenTieTop2.lean, GenTieTop2Final.lean): `cPluqT` = the generated `_mzd_pluq` over the
+    whole generated `_mzd_ple` (closed at any depth) and over the GENERATED `mzd_apply_p_right_trans_tri` / `mzd_col_swap_in_rows`, both branches (whole
+    matrix, window of the first r rows — `genTri_window`: the generated routine on a view reads and writes only the view's rows) returns exactly what
+    the version with the lifted model operation returns, hence a valid PLUQ factorisation with r = rank A -/
+#check @M4ri.GenTieTop2Final.cPluqT_eq
+#check @M4ri.GenTieTop2Final.c_pluq_tri
+#check @M4ri.GenTieTop2Final.cPluqT_agree
+#check @M4ri.GenTieTop2.genTri_window
+#check @M4ri.GenTieTop2.tri_bound
